@@ -15,7 +15,7 @@ RULE = ("(a) every statistic (14) on every shape of its dimensionality in a grid
         "shapes of the wrong dimensionality (error expected): `sfs stat --precision 15` vs the model within 1e-9 relative "
         "(D statistics: model numerator / sqrt(model radicand)); (b) end to end: random call sets without missing data -> "
         "`sfs create` -> `sfs stat`, vs the definitions computed directly from the genotypes by enumerating chromosome "
-        "pairs / allele frequencies / genotype pairs. non-trivial = statistic defined and non-zero")
+        "pairs / allele frequencies / genotype pairs. non-trivial = statistic defined and non-zero; the same integer spectrum as text and as npy of all 18 element types / byte orders must print the same statistic")
 
 
 def shapes_for(stat, tier, rng):
@@ -241,6 +241,42 @@ def check(rep, tier, seed):
                      argv=["sfs", "create"] + cli_samples_arg(sm), stdin=render_vcf(cols, recs).decode(),
                      observed={"rc": rc, "stdout": so.decode(errors="replace")[:100]}, expected=str(float(want)),
                      detail="statistic from the created spectrum differs from the same quantity computed directly from the genotypes")
+    # (d) the statistic is a function of the spectrum, not of the file it came in: the same integer-valued spectrum as text
+    # and as npy of every element type and byte order (files built here with struct, numpy's layout) gives the same bytes
+    import struct as _st
+    def npy_bytes(sh, vals, descr):
+        code = {"f8": "d", "f4": "f", "i8": "q", "i4": "i", "i2": "h", "i1": "b", "u8": "Q", "u4": "I", "u2": "H", "u1": "B"}[descr[1:]]
+        hdr = "{'descr': '%s', 'fortran_order': False, 'shape': (%s), }" % (descr, "".join("%d," % n for n in sh) if len(sh) == 1 else ", ".join(map(str, sh)))
+        hdr += " " * ((64 - (10 + len(hdr) + 1) % 64) % 64) + "\n"
+        bo = {"<": "<", ">": ">", "|": "="}[descr[0]]
+        conv = float if code in "df" else int
+        return b"\x93NUMPY\x01\x00" + _st.pack("<H", len(hdr)) + hdr.encode() + b"".join(_st.pack(bo + code, conv(v)) for v in vals)
+    DESCRS = ["<f8", ">f8", "<f4", ">f4", "<i8", ">i8", "<i4", ">i4", "<i2", ">i2", "|i1", "<u8", ">u8", "<u4", ">u4", "<u2", ">u2", "|u1"]
+    cjobs, cmeta = [], []
+    for st in STATS:
+        for _ in range(1 if tier == "quick" else 6):
+            d = DIMS[st] if DIMS[st] is not None else rng.choice([1, 2, 3])
+            sh = [3, 3] if st in ("king", "r0", "r1") else [rng.randrange(3, 6) for _ in range(d)]
+            E = 1
+            for n in sh:
+                E *= n
+            vals = [rng.randrange(1, 100) for _ in range(E)]
+            cjobs.append((["stat", "-s", st, "--precision", "12"], _ts(sh, list(map(str, vals))))); cmeta.append((st, sh, vals, "text"))
+            for descr in (DESCRS if tier != "quick" else rng.sample(DESCRS, 6) + [">f8", ">i4"]):
+                cjobs.append((["stat", "-s", st, "--precision", "12"], npy_bytes(sh, vals, descr))); cmeta.append((st, sh, vals, descr))
+    cres = run_cli_many(cjobs)
+    ref_out = None
+    for (st, sh, vals, form), (rc, so, se) in zip(cmeta, cres):
+        if form == "text":
+            ref_out = (rc, so)
+            continue
+        rep.count("stat-container:" + form, "%s %s" % (st, fmt(sh)), True)
+        if (rc, so) != ref_out or rc != 0:
+            rep.fail(kind="property-oracle", cls="stat:container:" + st, case="stat %s on %s given as npy %s" % (st, fmt(sh), form),
+                     argv=["sfs", "stat", "-s", st, "--precision", "12"], stdin_hex=npy_bytes(sh, vals, form).hex(),
+                     observed={"rc": rc, "stdout": so.decode(errors="replace")[:100], "stderr": se.decode(errors="replace")[-200:]},
+                     expected={"rc": ref_out[0], "stdout": ref_out[1].decode(errors="replace")[:100]},
+                     detail="the statistic of the same spectrum read from an npy file of element type %s differs from the one read from text" % form)
     rep.assumptions += ["exact-arithmetic theorems; f64 results compared within 1e-9 relative; sqrt evaluated in floating point for D",
                         "positive data so that no denominator vanishes (x/0 is NaN/inf in f64, outside the theorems' hypotheses)"]
 
